@@ -81,7 +81,7 @@ def parse_unit(path):
             elif d == "trusted":
                 unit["trusted"].append(rest)
             elif d == "take":
-                parts = [p.strip() for p in rest.split("|")]
+                parts = [p.strip() for p in rest.split("|", 3)]
                 while len(parts) < 4:
                     parts.append("")
                 cur_take = Take(*parts[:4])
@@ -103,6 +103,9 @@ def parse_unit(path):
                         cur_take.sections[csec] += cl + "\n"
                 cur_take.contract_file = rest
                 cur_sec = None
+            elif d == "regex_spec":
+                tag, _, key = rest.partition(" from ")
+                unit["chunks"].append(("regex", (tag.strip(), key.strip()), origin))
             elif d == "mutant":
                 parts = [p.strip() for p in re.split(r"(?<!\\)\s\|(?=\s|$)", " " + rest)]
                 parts = [("" if x == "|" else x).replace("{{PIPE}}", "|") for x in parts]
@@ -152,6 +155,9 @@ def run_xt(unit, workdir):
                 if "=" in kv:
                     k, v = kv.split("=", 1)
                     cur.meta[k] = v
+        elif line.startswith("@@MACARGS "):
+            k, _, rest = line[10:].partition(" ")
+            bykey[k].meta["macargs"] = dict(x.split(":", 1) for x in rest.split(" ;; ") if ":" in x)
         elif line.startswith("@@UNSUPPORTED "):
             cur.unsupported.append(line[14:])
         elif line.startswith("@@TEXT"):
@@ -314,12 +320,90 @@ def splice(take, mode, mutant=None):
     return text
 
 
+
+def gen_regex_spec(tag, lit):
+    """Verus spec function for the regex literal `lit` (Rust raw/normal string literal token text).
+    Supported shape only:  ^ [(?!(w1|w2|..)$)] ATOM (+|*) $   with ATOM = . | [class];  anything else => Undecided."""
+    m = re.match(r'^r?#*"(.*)"#*$', lit.strip())
+    if not m:
+        raise Undecided(f"regex_spec {tag}: not a string literal: {lit}")
+    rx = m.group(1)
+    body = rx
+    if not (body.startswith("^") and body.endswith("$")):
+        raise Undecided(f"regex_spec {tag}: unsupported regex (anchors): {rx}")
+    body = body[1:-1]
+    reserved = []
+    la = re.match(r"^\(\?!\(([^()]*)\)\$\)", body)
+    if la:
+        reserved = la.group(1).split("|")
+        if not all(re.fullmatch(r"[A-Za-z0-9_]+", w) for w in reserved):
+            raise Undecided(f"regex_spec {tag}: unsupported look-ahead alternative in {rx}")
+        body = body[la.end():]
+    qm = re.match(r"^(\.|\[(?:\[:[a-z]+:\]|[^\]\[])+\])([+*])$", body)
+    if not qm:
+        raise Undecided(f"regex_spec {tag}: unsupported regex body: {body}")
+    atom, quant = qm.group(1), qm.group(2)
+    conds = []
+    if atom == ".":
+        conds.append("c != '\\n'")   # `.` matches any character except a line feed (regex crate / fancy_regex default)
+    else:
+        cls = atom[1:-1]
+        i = 0
+        while i < len(cls):
+            if cls.startswith("[:", i):
+                j = cls.index(":]", i)
+                name = cls[i + 2:j]
+                if name == "alnum":
+                    conds.append("('0' <= c && c <= '9') || ('A' <= c && c <= 'Z') || ('a' <= c && c <= 'z')")
+                elif name == "alpha":
+                    conds.append("('A' <= c && c <= 'Z') || ('a' <= c && c <= 'z')")
+                elif name == "digit":
+                    conds.append("('0' <= c && c <= '9')")
+                else:
+                    raise Undecided(f"regex_spec {tag}: unsupported POSIX class {name}")
+                i = j + 2
+            elif i + 2 < len(cls) and cls[i + 1] == "-" and cls[i + 2] != "]":
+                a, b = cls[i], cls[i + 2]
+                if not (a.isalnum() and b.isalnum()):
+                    raise Undecided(f"regex_spec {tag}: unsupported range {a}-{b}")
+                conds.append(f"('{a}' <= c && c <= '{b}')")
+                i += 3
+            else:
+                ch = cls[i]
+                if ch == "\\" or ch == "^":
+                    raise Undecided(f"regex_spec {tag}: unsupported class item {ch!r}")
+                conds.append(f"c == '{ch}'")
+                i += 1
+    cls_expr = " || ".join(conds)
+    parts = []
+    if quant == "+":
+        parts.append("s.len() > 0")
+    parts.append(f"(forall|i: int| 0 <= i < s.len() ==> rx_{tag}_class(#[trigger] s[i]))")
+    for w in reserved:
+        parts.append(f's != "{w}"@')
+    return "\n".join([
+        f"// generated from the literal {lit} found in /repo (regex subset: anchors, one negative look-ahead over words, one atom with + or *)",
+        f"pub open spec fn rx_{tag}_class(c: char) -> bool {{ {cls_expr} }}",
+        f"pub open spec fn rx_{tag}(s: Seq<char>) -> bool {{ {' && '.join(parts)} }}",
+        f"pub broadcast axiom fn axiom_rx_{tag}(s: Seq<char>) ensures #[trigger] regex_sem({lit}@, s) == rx_{tag}(s);",
+    ])
+
+
 def assemble(unit, mode="normal", mutant=None):
     out, linemap = [], []   # linemap[i] = (origin, take_key or None)
     for kind, payload, origin in unit["chunks"]:
         if kind == "text":
             out.append(payload)
             linemap.append((origin, None))
+        elif kind == "regex":
+            tag, key = payload
+            t = next((x for x in unit["takes"] if x.key == key), None)
+            lit = (t.meta.get("macargs", {}) if t else {}).get("regex")
+            if not lit:
+                raise Undecided(f"regex_spec {tag}: take {key} has no macro argument `regex`")
+            for l in gen_regex_spec(tag, lit).split("\n"):
+                out.append(l)
+                linemap.append((origin + " (generated from the regex literal in /repo)", None))
         else:
             t = payload
             hdr = f"// ==== extracted from {t.file} :: {t.selector} lines {t.meta.get('line_start')}-{t.meta.get('line_end')} sha256={t.meta.get('sha256')} rewrites={t.meta.get('rewrites')}"
@@ -614,18 +698,29 @@ def obligation_id(unit_name, f):
     return f"{unit_name}/{f.get('take') or f['function']}/{f['label']}"
 
 
-def run_bounded(prop, tier, seed):
-    """bounded stand-ins (native harness linking the real crates); returns list of result dicts"""
+_BOUNDED_BUILT = {}
+
+
+def build_bounded():
+    if "ok" in _BOUNDED_BUILT:
+        return
+    manifest = os.path.join(VERIF, "bounded", "Cargo.toml")
+    env = dict(os.environ, CARGO_NET_OFFLINE="true")
+    bp = subprocess.run(["cargo", "build", "--release", "--offline", "--manifest-path", manifest],
+                        capture_output=True, text=True, env=env)
+    if bp.returncode != 0:
+        raise Undecided("bounded harness does not build against the working tree: " + bp.stderr[-600:])
+    _BOUNDED_BUILT["ok"] = True
+
+
+def run_bounded(prop, tier, seed, names=None):
+    """bounded stand-ins / witness searches (native harness linking the real crates); returns list of result dicts"""
     props = load_props()
     out = []
-    for b in props.get(prop, {}).get("bounded", []):
+    todo = [{"name": n} for n in names] if names is not None else props.get(prop, {}).get("bounded", [])
+    for b in todo:
         exe = os.path.join(VERIF, "bounded", "target", "release", "bounded")
-        manifest = os.path.join(VERIF, "bounded", "Cargo.toml")
-        env = dict(os.environ, CARGO_NET_OFFLINE="true", VERIF_REPO=REPO)
-        bp = subprocess.run(["cargo", "build", "--release", "--offline", "--manifest-path", manifest],
-                            capture_output=True, text=True, env=env)
-        if bp.returncode != 0:
-            raise Undecided("bounded harness does not build against the working tree: " + bp.stderr[-600:])
+        build_bounded()
         args = [exe, b["name"], "--tier", tier, "--seed", str(seed)]
         p = subprocess.run(args, capture_output=True, text=True, timeout=3000)
         try:
@@ -732,9 +827,33 @@ def decide(prop, tier, seed):
                 violations.append((vid, {"label": v.get("case"), "function": b["name"], "kind": "bounded", "message": v.get("what", ""),
                                          "witness": v, "rendered": json.dumps(v)}, None))
 
+    # ---- witness search: a concrete failing input on the real crate (replay), DESIGN.md §3.2
+    witness_runs = []
+    wnames = [w for w in pinfo.get("witness", []) if w not in {b.get("name") for b in bounded}]
+    need_witness = any(v[1].get("witness") is None for v in violations) or (reasons and not violations)
+    if wnames and need_witness:
+        try:
+            witness_runs = run_bounded(prop, tier, seed, names=wnames)
+        except Undecided as e:
+            reasons.append("witness harness: " + str(e))
+    wit = [dict(v, check=b["name"]) for b in (witness_runs + bounded) for v in b.get("violations", [])]
+    if wit:
+        attached = False
+        for oid, f, r in violations:
+            if f.get("witness") is None:
+                f["witness"] = wit[0]
+                attached = True
+        if not violations:
+            # the proof could not be attempted or completed, but the real code fails the executable contract on a concrete input
+            w = wit[0]
+            vid = f"witness/{w['check']}/{w.get('case', '?')}"
+            if not [x for x in findings if x.get("property") == prop and x.get("obligation") == vid]:
+                violations.append((vid, {"label": w.get("case"), "function": w["check"], "kind": "witness", "message": w.get("what", ""),
+                                         "witness": w, "rendered": json.dumps(w) + "\n(undecided by the verifier: " + "; ".join(reasons)[:600] + ")"}, None))
     wall = time.time() - t0
     # ---- evidence
     ev = build_evidence(prop, pinfo, tier, seed, results, canaries, mutant_results, bounded, violations, known_hits, reasons, wall)
+    ev["coverage"]["witness_runs"] = witness_runs
     with open(os.path.join(VERIF, "evidence", f"{prop}.json"), "w") as f:
         json.dump(ev, f, indent=1)
 
